@@ -73,10 +73,18 @@ def mutate_text(s: str, kind: str, pos: int, ch: str) -> str:
         return s + ch
     if kind == "prepend":
         return ch + s
+    if kind == "fold":
+        # characters outside ASCII that str.lower / str.upper map INTO the alphabets: KELVIN SIGN -> k, LONG S -> S, DOTLESS I -> I
+        up = s.upper()
+        for plain, odd in (("K", "\u212a"), ("S", "\u017f"), ("I", "\u0131")):
+            j = up.find(plain, i) if plain in up[i:] else up.find(plain)
+            if j >= 0:
+                return (up if odd == "\u212a" else s.lower())[:j] + odd + (up if odd == "\u212a" else s.lower())[j + 1 :]
+        return s + "\u212a"
     return s
 
 
-MUT_KINDS = ["none", "subst", "subst", "subst", "transpose", "caseflip", "upper", "truncate", "drop", "insert", "append", "prepend"]
+MUT_KINDS = ["none", "subst", "subst", "subst", "transpose", "caseflip", "upper", "truncate", "drop", "insert", "append", "prepend", "fold"]
 
 
 # ---------------------------------------------------------------- base58
@@ -154,7 +162,8 @@ def segwit_case(draw):
     return {"net": draw(st.sampled_from(NETS)), "ver": draw(st.integers(0, 17)), "len": draw(st.one_of(st.integers(1, 41), st.sampled_from([20, 32, 2, 40]))),
             "prog": draw(st.binary(min_size=41, max_size=41)).hex(), "mut": draw(st.sampled_from(MUT_KINDS)), "pos": draw(st.integers(0, 120)),
             "ch": draw(st.sampled_from(B32_CHARS)), "wrong_const": draw(st.integers(0, 7)) == 0,
-            "data_edit": draw(st.sampled_from(["none", "none", "none", "pad-bits", "extra-zero-group", "extra-group", "drop-group", "version-group"])), "edit_val": draw(st.integers(1, 31))}
+            "data_edit": draw(st.sampled_from(["none", "none", "none", "pad-bits", "extra-zero-group", "extra-group", "drop-group", "version-group", "foreign-hrp", "foreign-hrp"])), "edit_val": draw(st.integers(1, 31)),
+            "hrp_edit": draw(st.sampled_from(["append-1x", "append-1", "append-x", "prepend-x", "drop-last", "other-net-1", "upper-tail", "ltc"]))}
 
 
 def check_segwit(case):
@@ -193,6 +202,13 @@ def check_segwit(case):
             data.pop()
         elif de == "version-group":
             data[0] = case["edit_val"]
+        elif de == "foreign-hrp":
+            # a string that is valid bech32(m) under ANOTHER hrp, one that begins or ends like a real one: "bc1x" begins with "bc1", and
+            # the separator of a bech32 string is its LAST "1", so such a string belongs to no bitcoin network
+            x = "qpzry9x8"[case["edit_val"] % 8]
+            other = HRPS[(HRPS.index(hrp) + 1) % len(HRPS)]
+            hrp = {"append-1x": hrp + "1" + x, "append-1": hrp + "1", "append-x": hrp + x, "prepend-x": x + hrp, "drop-last": hrp[:-1] or "b",
+                   "other-net-1": hrp + "1" + other, "upper-tail": hrp + "1" + x + x, "ltc": "ltc"}[case.get("hrp_edit", "append-1x")]
         enc = sref.Encoding.BECH32 if data[0] == 0 else sref.Encoding.BECH32M
         if case["wrong_const"]:
             enc = sref.Encoding.BECH32M if data[0] == 0 else sref.Encoding.BECH32
